@@ -55,6 +55,7 @@ fn quiet<R>(f: impl FnOnce() -> R) -> R {
 ///  nondiff   sqrt |z|
 ///  nan       NaN
 ///  const     k[i]
+///  slow      z^2 (double root at 0: the iterates halve; with tol = 1e-300 the criterion is never met within 50 steps)
 ///  sys_sin   F_i = a_i x_i + sum_j b_ij sin x_j + k_i        (real)
 ///  sys_sq    F_i = a_i z_i + sum_j b_ij z_j^2 + k_i
 ///  sys_lin   F_i = a_i (z_i - r_i) + sum_j b_ij (z_j - r_j)
@@ -81,6 +82,7 @@ impl Fam {
             "nondiff" => c(z.abs().sqrt(), 0.0),
             "nan" => c(NAN, if self.cx { NAN } else { 0.0 }),
             "const" => self.k[0],
+            "slow" => z * z,
             other => { eprintln!("TOOL-ERROR unknown scalar family {}", other); std::process::exit(2) }
         }
     }
@@ -98,6 +100,7 @@ impl Fam {
             "nondiff" => c(z[i].abs().sqrt(), 0.0),
             "nan" => c(NAN, if self.cx { NAN } else { 0.0 }),
             "const" => self.k[i],
+            "slow" => z[i] * z[i],
             other => { eprintln!("TOOL-ERROR unknown system family {}", other); std::process::exit(2) }
         }).collect();
         self.rows(v, 1)
@@ -112,6 +115,7 @@ impl Fam {
                 "sys_sq" => self.a[i] * d + self.b[i * n + j] * z[j] * 2.0,
                 "sys_lin" => self.a[i] * d + self.b[i * n + j],
                 "rootfree" => if self.cx { c(2.0 * z[j].real * d, 0.0) } else { z[j] * (2.0 * d) },
+                "slow" => z[j] * (2.0 * d),
                 "nondiff" => c(d * z[j].real.signum() / (2.0 * z[j].abs().sqrt()), 0.0),
                 "nan" => c(NAN, if self.cx { NAN } else { 0.0 }),
                 _ => c(0.0, 0.0),
@@ -140,6 +144,9 @@ impl Nw {
             v => { eprintln!("TOOL-ERROR unknown newton variant {}", v); std::process::exit(2) }
         }
     }
+    fn set_tol(&mut self, x: f64) { match self { Nw::F(o) => o.tolerance(x), Nw::C(o) => o.tolerance(x), Nw::V(o) => o.tolerance(x), Nw::W(o) => o.tolerance(x) } }
+    fn set_delta(&mut self, x: f64) { match self { Nw::F(o) => o.delta(x), Nw::C(o) => o.delta(x), Nw::V(o) => o.delta(x), Nw::W(o) => o.delta(x) } }
+    fn set_guess(&mut self, g: &[Cmplx]) { match self { Nw::F(o) => o.guess(g[0].real), Nw::C(o) => o.guess(g[0]), Nw::V(o) => o.guess(to_vec64(g)), Nw::W(o) => o.guess(Vector::<Cmplx>::create(g.to_vec())) } }
     fn set_limit(&mut self, m: usize) { match self { Nw::F(o) => o.iterations(m), Nw::C(o) => o.iterations(m), Nw::V(o) => o.iterations(m), Nw::W(o) => o.iterations(m) } }
     /// parameters() as strings [tol bits, delta bits, max_iter, guess bits...]; the vector variants have no
     /// parameters() (it needs T: Copy), their configuration is observable through behaviour only
@@ -197,52 +204,88 @@ fn concretise(case: &Value) -> Value {
     k
 }
 
-// ------------------------------------------------------------------ exec: three solves, all events
+// ------------------------------------------------------------------ exec
+/// what the harness configured (the begin event carries it; Trace_Newton compares parameters() with it)
+#[derive(Clone)]
+struct Cfg { tol: f64, delta: f64, limit: usize, guess: Vec<Cmplx> }
+struct Ctx<'a> { cid: i64, mode: &'a str, variant: &'a str, fam: &'a Fam, basin: bool, root: &'a [Cmplx] }
+
+/// one solve: begin, one eval event per closure call, end
+fn one_solve(out: &mut Out, x: &Ctx, call: i64, nw: &Nw, cfg: &Cfg, expect: &str) {
+    let (cx, n) = (x.fam.cx, x.fam.n);
+    let pb = nw.params();
+    out.ev(json!({"op": "begin", "mode": x.mode, "cid": x.cid, "call": call, "variant": x.variant, "n": n, "maxit": cfg.limit, "pb": pb, "g": pbits(&cfg.guess, cx),
+                  "tolb": bits(cfg.tol), "deltab": bits(cfg.delta)}));
+    let rec: Rec = RefCell::new(vec![]);
+    let cap = 50 * (cfg.limit + 1) * (2 * n + 3) + 200;
+    let res = nw.solve(x.fam, x.variant, &rec, cap);
+    for (idx, (isjac, z)) in rec.borrow().iter().enumerate() {
+        out.ev(json!({"op": "eval", "cid": x.cid, "call": call, "idx": idx + 1, "fn": if *isjac { "jac" } else { "f" }, "x": pbits(z, cx)}));
+    }
+    let pa = nw.params();
+    let mut e = json!({"op": "end", "cid": x.cid, "call": call, "maxit": cfg.limit, "pa": pa, "basin": x.basin, "expect": expect, "cnt": rec.borrow().len()});
+    match res {
+        Ok(r) => {
+            let ok = r.is_ok(); let v = match r { Ok(v) => v, Err(v) => v };
+            let (mut du, mut duppm) = (0i64, 0i64);
+            if ok && x.basin {
+                // distance to the analytically known root in units of 8 (tol + delta^2 C_f + eps (|x*| + 1)), C_f = 1
+                let dist = if v.len() == x.root.len() { v.iter().zip(x.root.iter()).map(|(a, b)| (*a - *b).abs()).fold(0.0f64, |m, d| if d > m || d.is_nan() { d } else { m }) } else { f64::INFINITY };
+                let rn = x.root.iter().map(|z| z.abs()).fold(0.0f64, f64::max);
+                let unit = 8.0 * (cfg.tol + cfg.delta * cfg.delta + EPS * (rn + 1.0));
+                du = units(dist, unit); duppm = units(dist, unit * 1.0e-6);
+            }
+            e["ok"] = json!(ok); e["panic"] = json!(false); e["r"] = pbits(&v, cx); e["du"] = json!(du); e["duppm"] = json!(duppm);
+        }
+        Err(_) => { e["ok"] = json!(false); e["panic"] = json!(true); e["r"] = json!([]); e["du"] = json!(0); e["duppm"] = json!(0); }
+    }
+    out.ev(e);
+}
+
+/// the limits of a ladder case, in execution order (limit 1 first: it defines the per-step cost)
+const LADDER: [usize; 9] = [1, 0, 2, 3, 5, 8, 13, 20, 50];
+
 pub fn exec(case0: &Value, out: &mut Out) {
     let case = if case0.get("R").is_some() { concretise(case0) } else { case0.clone() };
-    let cid = geti(&case, "cid");
     let variant = gets(&case, "variant").to_string();
     let fam = Fam::from(&case);
-    let cx = fam.cx; let n = fam.n;
-    let tol = hexf(&case["tol"]); let delta = hexf(&case["delta"]);
-    let limit = getu(&case, "limit");
-    let guess = cvec_from(&case["guess"]);
-    let basin = case["basin"].as_bool().unwrap_or(false);
     let root = case.get("root").map(cvec_from).unwrap_or_default();
+    let kind = if gets(&case, "kind").is_empty() { "std" } else { gets(&case, "kind") };
+    let x = Ctx { cid: geti(&case, "cid"), mode: kind, variant: &variant, fam: &fam, basin: case["basin"].as_bool().unwrap_or(false), root: &root };
+    let mut cfg = Cfg { tol: hexf(&case["tol"]), delta: hexf(&case["delta"]), limit: getu(&case, "limit"), guess: cvec_from(&case["guess"]) };
     let expect = gets(&case, "expect").to_string();
-    let mut nw = Nw::new(&variant, &guess, tol, delta, limit);
-    for call in 1..=3i64 {
-        let lim = if call == 3 { limit + 1 } else { limit };
-        if call == 3 { nw.set_limit(lim); }
-        let pb = nw.params();
-        out.ev(json!({"op": "begin", "cid": cid, "call": call, "variant": variant, "n": n, "maxit": lim, "pb": pb, "g": pbits(&guess, cx),
-                      "tolb": bits(tol), "deltab": bits(delta)}));
-        let rec: Rec = RefCell::new(vec![]);
-        let cap = 50 * (lim + 1) * (2 * n + 3) + 200;
-        let res = nw.solve(&fam, &variant, &rec, cap);
-        for (idx, (isjac, z)) in rec.borrow().iter().enumerate() {
-            out.ev(json!({"op": "eval", "cid": cid, "call": call, "idx": idx + 1, "fn": if *isjac { "jac" } else { "f" }, "x": pbits(z, cx)}));
-        }
-        let pa = nw.params();
-        // model cases: the verdict is the model's closed form for THIS call's limit (criterion first met at step R)
-        let exp_call = match case.get("R").and_then(|r| r.as_i64()) { Some(r) => if r >= 1 && r <= lim as i64 { "ok".to_string() } else { "err".to_string() }, None => expect.clone() };
-        let mut e = json!({"op": "end", "cid": cid, "call": call, "maxit": lim, "pa": pa, "basin": basin, "expect": exp_call, "cnt": rec.borrow().len()});
-        match res {
-            Ok(r) => {
-                let ok = r.is_ok(); let x = match r { Ok(x) => x, Err(x) => x };
-                let (mut du, mut duppm) = (0i64, 0i64);
-                if ok && basin {
-                    // distance to the analytically known root in units of 8 (tol + delta^2 C_f + eps (|x*| + 1)), C_f = 1
-                    let dist = if x.len() == root.len() { x.iter().zip(root.iter()).map(|(a, b)| (*a - *b).abs()).fold(0.0f64, |m, d| if d > m || d.is_nan() { d } else { m }) } else { f64::INFINITY };
-                    let rn = root.iter().map(|z| z.abs()).fold(0.0f64, f64::max);
-                    let unit = 8.0 * (tol + delta * delta + EPS * (rn + 1.0));
-                    du = units(dist, unit); duppm = units(dist, unit * 1.0e-6);
+    let mut nw = Nw::new(&variant, &cfg.guess, cfg.tol, cfg.delta, cfg.limit);
+    match kind {
+        // three solves on one object: limit m twice (repeatability), then m + 1 (prefix closure)
+        "std" => for call in 1..=3i64 {
+            if call == 3 { cfg.limit += 1; nw.set_limit(cfg.limit); }
+            // model cases: the verdict is the model's closed form for THIS call's limit (criterion first met at step R)
+            let exp_call = match case.get("R").and_then(|r| r.as_i64()) { Some(r) => if r >= 1 && r <= cfg.limit as i64 { "ok".to_string() } else { "err".to_string() }, None => expect.clone() };
+            one_solve(out, &x, call, &nw, &cfg, &exp_call);
+        },
+        // solve, reconfigure through the setters (any order / combination), solve again; then a FRESH object with the final configuration
+        "seq" => {
+            one_solve(out, &x, 1, &nw, &cfg, &expect);
+            for op in case["ops"].as_array().map(|a| a.as_slice()).unwrap_or(&[]) {
+                match gets(op, "set") {
+                    "tol" => { cfg.tol = hexf(&op["v"]); nw.set_tol(cfg.tol); }
+                    "delta" => { cfg.delta = hexf(&op["v"]); nw.set_delta(cfg.delta); }
+                    "limit" => { cfg.limit = getu(op, "v"); nw.set_limit(cfg.limit); }
+                    "guess" => { cfg.guess = cvec_from(&op["v"]); nw.set_guess(&cfg.guess); }
+                    s => { eprintln!("TOOL-ERROR unknown setter {}", s); std::process::exit(2) }
                 }
-                e["ok"] = json!(ok); e["panic"] = json!(false); e["r"] = pbits(&x, cx); e["du"] = json!(du); e["duppm"] = json!(duppm);
             }
-            Err(_) => { e["ok"] = json!(false); e["panic"] = json!(true); e["r"] = json!([]); e["du"] = json!(0); e["duppm"] = json!(0); }
+            let e2 = gets(&case, "expect2").to_string();
+            one_solve(out, &x, 2, &nw, &cfg, &e2);
+            let fresh = Nw::new(&variant, &cfg.guess, cfg.tol, cfg.delta, cfg.limit);
+            one_solve(out, &x, 3, &fresh, &cfg, &e2);
         }
-        out.ev(e);
+        // never-converging function, limits 1, 0, 2, 3, 5, 8, 13, 20, 50 on one object
+        "ladder" => for (k, m) in LADDER.iter().enumerate() {
+            cfg.limit = *m; nw.set_limit(*m);
+            one_solve(out, &x, k as i64 + 1, &nw, &cfg, "err");
+        },
+        k => { eprintln!("TOOL-ERROR unknown newton case kind {}", k); std::process::exit(2) }
     }
 }
 
@@ -388,6 +431,73 @@ pub fn gen(tier: &str, seed: u64, out: &mut Out) {
         if rng.gen_bool(0.5) { k["perm"] = json!(rand_perm(&mut rng, n)); }
         push(out, k);
     } } } }
+    // (a3) ladders: never-converging functions, limits 1, 0, 2, 3, 5, 8, 13, 20, 50 on one object, all six variants:
+    //      exactly m steps under limit m (closure calls = m x those under limit 1)
+    let dims: &[usize] = if quick { &[1, 3] } else { &[1, 2, 3, 4, 5, 6] };
+    for rep in 0..(if quick { 1 } else { 3 }) { for v in VARIANTS { for fam in ["rootfree", "slow", "const", "nondiff"] {
+        let cx = matches!(v, "cx" | "cvec" | "cvecj"); let sys = !matches!(v, "f64" | "cx");
+        for n in (if sys { dims } else { &[1usize][..] }) {
+            let n = *n;
+            let im = |rng: &mut StdRng, m: f64| if cx { unif(rng, -m, m) } else { 0.0 };
+            let guess: Vec<Cmplx> = (0..n).map(|_| match fam {
+                "nondiff" => c(unif(&mut rng, 0.5, 2.0) * if rng.gen_bool(0.5) { 1.0 } else { -1.0 }, 0.0),
+                "rootfree" if cx && !sys => c(unif(&mut rng, -1.0, 1.0), unif(&mut rng, -1.0, 1.0)),
+                "rootfree" => c(unif(&mut rng, 0.3, 3.0) * if rng.gen_bool(0.5) { 1.0 } else { -1.0 }, im(&mut rng, 2.0)),
+                "slow" => c(unif(&mut rng, 0.5, 2.0) * if rng.gen_bool(0.5) { 1.0 } else { -1.0 }, im(&mut rng, 1.0)),
+                _ => c(unif(&mut rng, -3.0, 3.0), im(&mut rng, 3.0)),
+            }).collect();
+            let tol = if fam == "slow" { 1.0e-300 } else { pick_tol(&mut rng) };
+            let mut k = json!({"kind": "ladder", "fam": fam, "variant": v, "n": n, "tol": jhex(tol), "delta": jhex(pick_delta(&mut rng)), "limit": 1,
+                               "guess": jcvec(&guess), "basin": false, "expect": "err"});
+            if fam == "const" { k["k"] = jcvec(&(0..n).map(|_| unit_dir(&mut rng, cx) * unif(&mut rng, 0.5, 2.0)).collect::<Vec<_>>()); }
+            push(out, k);
+        }
+    } } }
+    // (a4) reconfiguration sequences: solve, then every ordered arrangement of every non-empty subset of the four setters
+    //      (64), plus "set to the value it already has", guess(root), iterations(0); solve again; compare with a fresh object
+    let names = ["tol", "delta", "limit", "guess"];
+    let mut arrs: Vec<Vec<(usize, bool)>> = vec![];          // (setter, same-value?)
+    for mask in 1..16u32 { let items: Vec<usize> = (0..4).filter(|i| mask >> i & 1 == 1).collect();
+        let mut perms: Vec<Vec<usize>> = vec![vec![]];
+        for _ in 0..items.len() { perms = perms.into_iter().flat_map(|p| items.iter().filter(|i| !p.contains(i)).map(|i| { let mut q = p.clone(); q.push(*i); q }).collect::<Vec<_>>()).collect(); }
+        for p in perms { arrs.push(p.into_iter().map(|i| (i, false)).collect()); } }
+    for i in 0..4 { arrs.push(vec![(i, true)]); }
+    arrs.push(vec![(3, true), (1, true), (0, true), (2, true)]);
+    arrs.push(vec![(0, true), (3, false)]); arrs.push(vec![(2, false), (1, true)]);
+    let vsets: Vec<Vec<&str>> = if quick { (0..arrs.len()).map(|i| vec![VARIANTS[i % 6], VARIANTS[(i / 6 + i + 3) % 6]]).collect() } else { (0..arrs.len()).map(|_| VARIANTS.to_vec()).collect() };
+    for (ai, arr) in arrs.iter().enumerate() { for v in vsets[ai].iter() {
+        let v = *v;
+        let cx = matches!(v, "cx" | "cvec" | "cvecj"); let sys = !matches!(v, "f64" | "cx");
+        let n = if sys { 1 + (ai % 4) } else { 1 };
+        // every third case: the double root z^2 (linear convergence: the step count depends strongly on the tolerance, so a stale
+        // tolerance cannot hide behind a quadratic jump); the others: basin families with known roots
+        let slow = ai % 3 == 1;
+        let (mut k, root, rad) = if slow { (json!({"fam": "slow"}), vec![c(0.0, 0.0); n], 0.0) }
+                                 else if sys { system_basin(&mut rng, cx, n) } else { let (k, r, rho) = scalar_basin(&mut rng, cx); (k, vec![r], rho) };
+        let mut pt = |rng: &mut StdRng| -> Vec<Cmplx> {
+            if slow { return (0..n).map(|_| unit_dir(rng, cx) * unif(rng, 0.5, 2.0)).collect(); }
+            root.iter().map(|z| *z + unit_dir(rng, cx) * (unif(rng, 0.0, 0.999) * rad * if sys { unif(rng, 0.0, 1.0) } else { 1.0 })).collect() };
+        let ptol = |rng: &mut StdRng| if slow { (10.0f64).powf(-unif(rng, 3.0, 6.0)) } else { pick_tol(rng) };
+        let (tol1, delta1, guess1) = (ptol(&mut rng), pick_delta(&mut rng), pt(&mut rng));
+        let limit1 = if rng.gen_bool(0.5) { rng.gen_range(NEED..=20) } else { rng.gen_range(0..6) };
+        let (mut limit2, mut guess2) = (limit1, guess1.clone());
+        let mut ops: Vec<Value> = vec![]; let mut at_root = false;
+        for (i, same) in arr.iter() {
+            let val = match (*i, *same) {
+                (0, true) => jhex(tol1), (1, true) => jhex(delta1), (2, true) => json!(limit1), (3, true) => jcvec(&guess1),
+                (0, _) => { let mut x = ptol(&mut rng); if x / tol1 < 30.0 && tol1 / x < 30.0 { x = if tol1 > 3.0e-8 { tol1 / 1000.0 } else { tol1 * 1000.0 }; } jhex(x) }
+                (1, _) => jhex(if delta1 == 1.0e-8 { 1.0e-7 } else { 1.0e-8 }),
+                (2, _) => { let mut m = match rng.gen_range(0..6) { 0 => 0, 1 => 1, 2 => rng.gen_range(2..NEED), _ => rng.gen_range(NEED..=25) }; if m == limit1 { m += 1; } limit2 = m; json!(m) }
+                _ => { at_root = rng.gen_bool(0.3); guess2 = if at_root { root.clone() } else { pt(&mut rng) }; jcvec(&guess2) }
+            };
+            ops.push(json!({"set": names[*i], "v": val, "same": same}));
+        }
+        k["kind"] = json!("seq"); k["variant"] = json!(v); k["n"] = json!(n); k["tol"] = jhex(tol1); k["delta"] = jhex(delta1); k["limit"] = json!(limit1);
+        k["guess"] = jcvec(&guess1); k["root"] = jcvec(&root); k["basin"] = json!(!slow); k["ops"] = Value::from(ops);
+        k["expect"] = json!(if limit1 == 0 { "err" } else if slow { "any" } else if limit1 >= NEED { "ok" } else { "any" });
+        k["expect2"] = json!(if limit2 == 0 { "err" } else if slow { "any" } else if limit2 >= NEED || at_root { "ok" } else { "any" });
+        push(out, k);
+    } }
     // (b) termination / failure half: root-free, non-differentiable, NaN-producing, constant functions (failure is
     //     provable: the stopping criterion can never be met), plus a double root and a divergent iteration (protocol only)
     let reps = if quick { 24 } else { 240 };
